@@ -343,6 +343,46 @@ func c28(r *core.Run) {
 		r.Floor("C28.P2", "next-hop choices in "+name, n, 1)
 	}
 
+	// P3 skip-list forwarding: a next-hop helper that receives a skip list hands it on,
+	// unchanged or extended, to every next-hop helper it calls (the chain
+	// GetNextHopRandomOrFind → getNextHopRandom → getNextHopEffective → Table.GetNextHop);
+	// dropping it on one call (a retry after discovery, say) lets a relay pick a node that
+	// is already on the path.
+	skipParam := func(f *ssa.Function) *ssa.Parameter {
+		if f == nil || !f.Signature.Variadic() || len(f.Params) == 0 {
+			return nil
+		}
+		p := f.Params[len(f.Params)-1]
+		if p.Name() == "skips" && strings.HasSuffix(p.Type().String(), "boson.Address") {
+			return p
+		}
+		return nil
+	}
+	nFwd := 0
+	for _, fn := range w.PkgFuncs("pkg/routetab") {
+		sp := skipParam(fn)
+		if sp == nil {
+			continue
+		}
+		core.EachInstr(fn, func(_ *ssa.BasicBlock, _ int, in ssa.Instruction) {
+			c, ok := in.(*ssa.Call)
+			if !ok {
+				return
+			}
+			callee := c.Call.StaticCallee()
+			if skipParam(callee) == nil {
+				return
+			}
+			nFwd++
+			r.Saw(core.FuncName(fn))
+			arg := c.Call.Args[len(c.Call.Args)-1]
+			okFwd := core.DerivesFrom(arg, func(x ssa.Value) bool { return x == ssa.Value(sp) }, nil)
+			r.Check("C28.P3", core.Key("C28.P3", fn, "skip list forwarded to "+callee.Name()), c.Pos(), okFwd,
+				"the skip list a next-hop helper received is passed on to the helper it calls", core.FuncName(fn)+" calls "+callee.Name()+" without its skip list: nodes already on the relay path become eligible next hops again")
+		})
+	}
+	r.Floor("C28.P3", "skip-list hand-overs between next-hop helpers", nFwd, 4)
+
 	// G2 doRouteReq
 	if fn := w.Func("pkg/routetab", "(*Service).doRouteReq"); fn == nil {
 		r.Fatal("unresolved anchor pkg/routetab.(*Service).doRouteReq")
